@@ -29,12 +29,12 @@ type rawPeer struct {
 }
 
 type rawResult struct {
-	Status  int // HTTP status (0 for stdio)
-	Header  http.Header
-	Frames  [][]byte // JSON-RPC frames emitted in reaction (body, SSE events or stdout lines)
+	Status   int // HTTP status (0 for stdio)
+	Header   http.Header
+	Frames   [][]byte // JSON-RPC frames emitted in reaction (body, SSE events or stdout lines)
 	Problems []string // framing problems
-	Err     error
-	Body    []byte
+	Err      error
+	Body     []byte
 }
 
 // newRawPeer connects a raw peer (with a completed handshake unless skipInit).
